@@ -135,6 +135,8 @@ class CallGen(gen_core.Gen):
         name = sc.fresh("f")
         inner = gen_core.Scope(sc)
         inner.frozen = set()
+        inner.captured = set(sc.vars)
+        inner.cond = False
         params, defaults = [], []
         npos = r.randrange(0, 3)
         for i in range(npos):
